@@ -29,6 +29,8 @@ def select_specs() -> list[Spec]:
         Spec("gen_worst_agent", h, None, "worst_agent", [P, TT], AGENT, fallible=True, attrs=cost_attr),
         Spec("gen_best_agents_indexes", h, None, "best_agents_indexes", [P, ("n_best", "n_best", NAT), TT, ("pi!", "pi", LIST(NAT))], LIST(NAT), attrs=cost_attr),
         Spec("gen_worst_agents_indexes", h, None, "worst_agents_indexes", [P, ("n_worst", "n_worst", NAT), TT, ("pi!", "pi", LIST(NAT))], LIST(NAT), attrs=cost_attr),
+        Spec("gen_best_agent_index", h, None, "best_agent_index", [P, TT, ("pi!", "pi", LIST(NAT))], NAT, fallible=True, attrs=cost_attr),
+        Spec("gen_worst_agent_index", h, None, "worst_agent_index", [P, TT, ("pi!", "pi", LIST(NAT))], NAT, fallible=True, attrs=cost_attr),
         Spec("gen_special_agents", h, None, "special_agents",
              [P, ("n_best", "n_best", OPT(NAT)), ("n_worst", "n_worst", OPT(NAT)), TT], TUP(LIST(AGENT), LIST(AGENT)),
              fallible=True, attrs=cost_attr),
